@@ -1,4 +1,5 @@
 import Martian.Props.C01.Wire
+import Martian.Props.C01.Facts
 import Martian.Lemmas.Proxy
 import Martian.Lemmas.ProxyTrace
 import Martian.Lemmas.ProxyState
